@@ -33,7 +33,7 @@ package votingmachine
 // block, keeps the store invariant, and hands a NewViewMsg with the new certificate to the event
 // loop (ghost trace `added`) only when the stored votes for the block, including this one, reach
 // the quorum.
-//@ func (*VotingMachine).verifyCert property C09
+//@ func (*VotingMachine).verifyCert property C09,C10
 //@   requires vmwf(vm) && vminv(vm) && block != nil && block.hash == cert.blockHash && hotstuff.genesisBlock != nil
 //@   ensures [stored] vmstored(vm)
 //@   ensures [distinct] vmdistinct(vm)
